@@ -177,7 +177,7 @@ class SimNet:
                 self.fire('send_stall')
                 sim.sleep(stall.get('arg', 0.3))
             ev = sim.next_event()
-            self.wire.append((ev, sim.now, bulb.idx, req.name, occ))
+            self.wire.append((ev, sim.now, bulb.idx, req.name, occ, data))
             if self._silent(bulb.idx):
                 self.fire('silent_device')
                 self.dropped.append((bulb.idx, req.name, occ, 'silent'))
